@@ -1,7 +1,7 @@
 #!/bin/bash
 # usage: tools/run_all.sh [quick|thorough] [PROP...]   runs checks serially on /repo as it is; one line per check
 TIER="${1:-quick}"; shift
-cd /verif || exit 3
+cd "$(dirname "$(readlink -f "$0")")/.." || exit 3
 PROPS="$@"
 [ -z "$PROPS" ] && PROPS=$(python3 -c "import json;print(' '.join(c['property_id'] for c in json.load(open('MANIFEST.json'))['checks']))")
 for P in $PROPS; do
